@@ -44,6 +44,11 @@ def run(ctx: Ctx):
   from mlmverif.props import c15
   from mlmverif.props import c05
   from mlmverif.props._queue import model as qmodel
+  from mlmverif.props import c14
+  ctx.include('R-C06-21', '"a worker that is being terminated ... its tasks are retried elsewhere": a task that crashes BECAUSE its'
+              ' server is shutting down is answered with the retriable TimeoutError on both ways out of the server\'s'
+              ' evaluation — raised and returned (R-C14-4). Rewriting it on the returned way only lets the raised one reach'
+              ' as_completed as an application error, which aborts the run instead of re-queueing the shard', c14.r4, min_instances=3)
   ctx.include('R-C06-10', '"non-retriable task errors surface to the caller as'
               ' errors, never as silently missing results": on the worker the'
               ' failure of the shard\'s generator is stored BEFORE the end of'
@@ -1048,6 +1053,9 @@ _W = 'chainables/courier_worker.py'
 _O = 'chainables/orchestrate.py'
 _U = 'utils/courier_utils.py'
 VARIANTS = [
+    B('shutdown-rewrite-on-the-returned-way-only', 'chainables/courier_server.py',
+      "      if self._shutdown_requested:\n        e = TimeoutError('Shutdown requested, the worker is shutting down.')\n      if not return_exception:\n        raise e\n",
+      "      if not return_exception:\n        raise e\n      if self._shutdown_requested:\n        e = TimeoutError('Shutdown requested, the worker is shutting down.')\n", 'R-C06-21'),
     B('iterate-loop-forgets-queued-retries', _W,
       '      while not exhausted or tasks or running_tasks:', '      while not exhausted or running_tasks:', 'R-C06-19'),
     B('as-completed-loop-forgets-queued-retries', _O,
